@@ -445,6 +445,46 @@ pub fn run(tier: &str) -> i32 {
     }
     rep.set("reference_digests", json!(reference.iter().map(|(k, v)| (alpha[*k].name.to_string(), v.clone())).collect::<BTreeMap<_, _>>()));
 
+    // ---- (0) one buffer, many sources: equal-length variants of the inputs written one after the other into the same
+    // `String` (same address, same length, other content - what a build script looping over files does); every ordered
+    // pair (and, thorough, triple). References: each variant from its own allocation while all of them are alive.
+    {
+        let picks = [0usize, 1, 2, 3, 6, 7, 11, 13, 14];
+        let width = picks.iter().map(|i| alpha[*i].src.len()).max().unwrap() + 16;
+        let padded: Vec<String> = picks.iter().map(|i| format!("{}\n//{}", alpha[*i].src, " ".repeat(width - alpha[*i].src.len() - 3))).collect();
+        if padded.iter().any(|p| p.len() != width) {
+            machinery("C18: padded variants differ in length");
+        }
+        let fresh: Vec<String> = padded.iter().map(|p| outcome_digest(&generate(p, &Config::default()))).collect();
+        let mut buf = String::with_capacity(width);
+        let mut seqs = wgslgen::sequences(picks.len(), 2);
+        if thorough {
+            seqs.extend(wgslgen::sequences(picks.len(), 3));
+        }
+        let mut calls = 0u64;
+        for seq in &seqs {
+            let mut addr = None;
+            for (k, v) in seq.iter().enumerate() {
+                buf.clear();
+                buf.push_str(&padded[*v]);
+                if let Some(a) = addr {
+                    if a != buf.as_ptr() as usize {
+                        machinery("C18: the reused buffer moved");
+                    }
+                }
+                addr = Some(buf.as_ptr() as usize);
+                let got = outcome_digest(&generate(&buf, &Config::default()));
+                calls += 1;
+                if got != fresh[*v] {
+                    let names: Vec<&str> = seq.iter().map(|i| alpha[picks[*i]].name).collect();
+                    rep.violation(format!("same-buffer|{}|call={k}", names.join(",")), format!("a source written into a reused buffer gives {got}, from its own allocation {}", fresh[*v]), json!({"wgsl": padded[*v], "sequence": names}));
+                }
+            }
+        }
+        rep.states += seqs.len() as u64;
+        rep.evaluations += calls;
+        rep.set("same_buffer_sequences", json!({"variants": picks.len(), "sequences": seqs.len(), "calls": calls, "bytes": width}));
+    }
     // ---- (1) histories
     let depth = if thorough { 3 } else { 2 };
     let mut seqs: Vec<Vec<usize>> = vec![];
